@@ -63,6 +63,8 @@ SHAPES = {
     "deep-vec": "(set 'hz-v (vector)) (dotimes (i 3000) (set 'hz-v (vector hz-v)))",
     "deep-list": "(set 'hz-v ()) (dotimes (i 3000) (set 'hz-v (list hz-v)))",
     "dag": "(set 'hz-v 1) (dotimes (i 12) (set 'hz-v (list hz-v hz-v)))",
+    # two RINGS of maps whose lengths are coprime (a pair of positions repeats only after lcm(p, q) steps of a pairwise walk)
+    "cyc-rings": "(defun hz-ring (n) (let* ((head (sorted-map)) (cur head)) (dotimes (i (- n 1)) (let ((nx (sorted-map))) (assoc! cur \"next\" nx) (set! cur nx))) (assoc! cur \"next\" head) head)) (set 'hz-v (list (hz-ring 2003) (hz-ring 2011)))",
 }
 
 SINKS = {
@@ -90,6 +92,7 @@ SINKS = {
     "quasiquote-splice": "(quasiquote (1 (unquote hz-v) (unquote-splicing (list hz-v hz-v))))",
     "concat": "(concat 'list (list hz-v) (list hz-v))",
     "reverse": "(reverse 'list (list hz-v hz-v))",
+    "equal-pair": "(if (list? hz-v) (equal? (first hz-v) (second hz-v)) (equal? hz-v (list hz-v)))",
 }
 
 
